@@ -118,6 +118,13 @@ TOTAL = {
     "core::slice::<impl [T]>::last": "returns Option",
     "core::slice::<impl [T]>::first": "returns Option",
     "std::ptr::eq": "address comparison",
+    "std::fmt::DebugStruct::<'a, 'b>::finish": "formatting plumbing of a hand-written Debug",
+    "std::fmt::DebugStruct::<'a, 'b>::field": "formatting plumbing of a hand-written Debug",
+    "std::fmt::DebugStruct::<'a, 'b>::finish_non_exhaustive": "formatting plumbing of a hand-written Debug",
+    "std::fmt::Formatter::<'a>::debug_struct": "formatting plumbing of a hand-written Debug",
+    "std::fmt::DebugTuple::<'a, 'b>::finish": "formatting plumbing of a hand-written Debug",
+    "std::fmt::DebugTuple::<'a, 'b>::field": "formatting plumbing of a hand-written Debug",
+    "std::fmt::Formatter::<'a>::debug_tuple": "formatting plumbing of a hand-written Debug",
     "vmm_sys_util::epoll::Epoll::new": "syscall wrapper returning Result",
     "vmm_sys_util::epoll::Epoll::wait": "syscall wrapper returning Result",
     "vmm_sys_util::epoll::EpollEvent::new": "constructor",
@@ -136,6 +143,7 @@ ENVIRONMENT = {
 }
 # sites whose obligation is an invariant across calls: discharged by R03.6, never assumed
 ASSUMED = {
+    (conn.PARSE_B, "at-most-len", "Headers::content_length"): "the same obligation when the body is cut off with split_off(content_length): discharged by R03.6 (split_off-in-range)",
     (conn.PARSE_B, "drain", "Headers::content_length"): "needs len(body_vec) + body_bytes_to_be_read == content_length while WaitingForBody: established when the state is entered (body_vec empty, counter = content_length), preserved by the partial path (both change by the same amount) and consumed here; an invariant across calls that the per-call analysis does not carry",
 }
 GEN = os.path.join(os.path.dirname(__file__), "..", "..", "gen", "std_panics.json")
@@ -218,6 +226,7 @@ def typestate(ctx):
             pend = "entry"       # entry | some | none
             entry_state_known = None   # knowledge about the entry state from conditions
             observed_some = False
+            took_entry = None
             bad = None
             for e in lf.events:
                 if e[0] == "cond":
@@ -234,12 +243,16 @@ def typestate(ctx):
                             observed_some = True
                     if t[0] == "discr" and self_field(t[1], "pending_request") and option_is_some(c):
                         observed_some = True
+                    # the pending request taken out of a connection not touched before, and found None: it was None on entry, so
+                    # (the invariant holds on entry) the state was not RequestReady
+                    from .util import option_test
+                    if took_entry is not None and state == "entry" and option_test(t, c, lambda y: norm(y) == took_entry) == "none":
+                        allv = set(facts.variant_discr("connection::ConnectionState").values())
+                        entry_state_known = (entry_state_known if entry_state_known is not None else allv) - {"RequestReady"}
                 elif e[0] == "assign" and e[3] == "(*_1).state":
                     v = e[4]
                     if v[0] == "agg" and v[2] == "RequestReady":
-                        if not (pend == "some" or (pend == "entry" and observed_some)):
-                            bad = "state := RequestReady without pending_request known to be Some on this path"
-                        state = "RR"
+                        state = "RR"        # whether the pending request is there is asked where the method is left (or hands self on)
                     else:
                         state = "notRR"
                 elif e[0] == "assign" and e[3] == "(*_1).pending_request":
@@ -249,6 +262,8 @@ def typestate(ctx):
                 elif e[0] == "call":
                     path, args = e[3], e[4][2]
                     if args and last_seg(path) in ("take", "replace", "insert", "get_or_insert") and self_field(args[0], "pending_request"):
+                        if last_seg(path) == "take" and pend == "entry":
+                            took_entry = norm(e[4])
                         pend = "none" if last_seg(path) == "take" else "some"
                         observed_some = pend == "some"
                     elif path in facts.fns and args and look(args[0]) in (("arg", 1),) and path.startswith(conn.P):
@@ -260,12 +275,16 @@ def typestate(ctx):
                             # the callee preserves the invariant (checked on its own); our knowledge resets
                             if pend == "none" and state != "notRR" and not (state == "entry" and entry_state_known is not None and "RequestReady" not in entry_state_known):
                                 bad = "calls %s while pending_request is None and state may be RequestReady" % path.split("::")[-1]
+                            if state == "RR" and not (pend == "some" or (pend == "entry" and observed_some)):
+                                bad = "calls %s in state RequestReady without pending_request known to be Some on this path" % path.split("::")[-1]
                             state, pend, observed_some, entry_state_known = "entry", "entry", False, None
             # at the exit
             if bad is None and pend == "none":
                 may_rr = state == "RR" or (state == "entry" and not (entry_state_known is not None and "RequestReady" not in entry_state_known))
                 if may_rr:
                     bad = "leaves with pending_request None while state may be RequestReady"
+            if bad is None and state == "RR" and not (pend == "some" or (pend == "entry" and observed_some)):
+                bad = "state := RequestReady without pending_request known to be Some where the method is left"
             n += 1
             if bad:
                 all_ok = False
@@ -386,6 +405,7 @@ def body_invariant(ctx):
                     st.add_eq(tr.L + b0 - tr.CL)
                 else:
                     st.add_eq(tr.L)
+                split_rest = {}
                 state_now = WFB if in_body else None   # None = some state other than WFB
                 known = True   # do we still know L / state (no opaque &mut self call since)?
                 why = None
@@ -444,7 +464,26 @@ def body_invariant(ctx):
                                 newl = tr.atom(("ghost", "len(body_vec) after truncate@%d" % e[1]), 0, 2**40)
                                 st.add_le(newl - tr.L)
                                 tr.L = newl
-                            elif seg in ("push", "append", "insert", "resize", "retain", "split_off", "swap_remove", "remove", "pop"):
+                            elif seg == "split_off" and len(args) == 2:
+                                # v.split_off(n): needs n <= len; v keeps the first n, the call's result holds the other len - n
+                                n = tr.lin(args[1])
+                                n_drains += 1
+                                okd = known and st.entails_le(n - tr.L)
+                                ctx.ob("R03.6", "%s|split_off-in-range|%s" % (fn.name.split("::")[-1], "in-body" if in_body else "other"), okd, "%s: body_vec.split_off(n) with n <= len(body_vec) entailed by the invariant and the path" % fn.name.split("::")[-1], fn.loc(e[1]))
+                                all_ok = all_ok and okd
+                                split_rest[norm(e[4])] = tr.L - n
+                                tr.L = n
+                            elif seg == "replace" and path == "std::mem::replace" and len(args) == 2:
+                                put = look(args[1])
+                                while put[0] == "mut":
+                                    put = look(put[1])
+                                if norm(put) in split_rest:
+                                    tr.L = split_rest[norm(put)]
+                                elif is_call(put, "new"):
+                                    tr.L = Lin.const(0)
+                                else:
+                                    why = "body_vec is replaced by something whose length the invariant proof does not know"
+                            elif seg in ("push", "append", "insert", "resize", "retain", "split_off", "swap_remove", "remove", "pop", "replace", "take", "swap"):
                                 why = "body_vec is modified by %s, which the invariant proof does not model" % seg
                         elif path in facts.fns and path.startswith(conn.P) and args and look(args[0]) == ("arg", 1) and _takes_mut_self(facts, path):
                             if is_new_fn(path):
